@@ -1,5 +1,10 @@
 package heap
 
+// C03 — S1 harnesses: one real operation from an ARBITRARY heap-ordered representation
+// (symbolic elements, every size up to the bound), checked against the multiset/ordering contract.
+// Touches unexported fields (mu, comp, data): if the representation changes this file is dropped
+// by the loader and zv_c03_s2.go (API only) decides alone.
+
 import (
 	"sync"
 
@@ -17,8 +22,27 @@ func zvComp(kind int) func(a, b int) bool {
 	return func(a, b int) bool { return vrt.RelInt(a, b) }
 }
 
-// zvHeapN builds an arbitrary heap-ordered Heap[int] with exactly n elements, spare capacity 0 or 2.
-// extra are further values the operation will compare (carrier of the uninterpreted order).
+func zvInts(n int) []int {
+	a := make([]int, n)
+	for i := range a {
+		a[i] = vrt.Int()
+	}
+	return a
+}
+
+// zvHeapOf wraps arr (assumed heap-ordered by the caller) into a Heap.
+func zvHeapOf(arr []int, comp func(a, b int) bool) *Heap[int] {
+	return &Heap[int]{mu: new(sync.RWMutex), comp: comp, data: arr}
+}
+
+func zvAssumeHeap(arr []int, comp func(a, b int) bool) {
+	for i := 1; i < len(arr); i++ {
+		vrt.Assume(!comp(arr[i], arr[(i-1)/2]))
+	}
+}
+
+// zvHeapN builds an arbitrary heap-ordered Heap[int] with exactly n elements and spare capacity
+// 0 or 2. extra are further values the operation will compare (carrier of the uninterpreted order).
 func zvHeapN(n, kind int, extra ...int) (*Heap[int], []int) {
 	spare := 2 * vrt.Choice(2)
 	arr := make([]int, n, n+spare)
@@ -29,22 +53,25 @@ func zvHeapN(n, kind int, extra ...int) (*Heap[int], []int) {
 	if kind == 2 {
 		vrt.AssumeSWO(append(append([]int(nil), arr...), extra...)...)
 	}
-	for i := 1; i < n; i++ {
-		vrt.Assume(!comp(arr[i], arr[(i-1)/2]))
-	}
+	zvAssumeHeap(arr, comp)
 	pre := append([]int(nil), arr...)
-	return &Heap[int]{mu: new(sync.RWMutex), comp: comp, data: arr}, pre
+	return zvHeapOf(arr, comp), pre
 }
 
-func zvHeapInv(data []int, comp func(a, b int) bool, id string) {
+func zvIsHeap(data []int, comp func(a, b int) bool) bool {
 	ok := true
 	for i := 1; i < len(data); i++ {
 		ok = vrt.And(ok, !comp(data[i], data[(i-1)/2]))
 	}
-	vrt.Assert(ok, id)
+	return ok
 }
 
 func zvKind() int { return vrt.Choice(3) }
+
+func ZvC03_S1_New() {
+	h := NewHeap(zvComp(0))
+	vrt.Assert(vrt.And(h.Size() == 0, h.IsEmpty(), len(h.GetValues()) == 0, h.Peek() == 0, h.Pop() == 0), "C03/New/empty")
+}
 
 func ZvC03_S1_Push() {
 	kind := zvKind()
@@ -56,9 +83,23 @@ func ZvC03_S1_Push() {
 	vrt.Assert(len(post) == n+1, "C03/Push/size")
 	q := vrt.Int()
 	vrt.Assert(vrt.CountInt(post, q) == vrt.CountInt(pre, q)+vrt.B2I(q == v), "C03/Push/conserve")
-	zvHeapInv(post, h.comp, "C03/Push/heap-order")
-	vrt.Assert(h.Size() == n+1, "C03/Push/Size")
+	vrt.Assert(zvIsHeap(post, h.comp), "C03/Push/heap-order")
+	vrt.Assert(vrt.And(h.Size() == n+1, !h.IsEmpty()), "C03/Push/Size")
+	vrt.Assert(vrt.LocksHeld() == 0, "C03/Push/lock-released")
 	vrt.Cover("C03/Push/done")
+}
+
+// Push of several values at once (variadic) is a sequence of single pushes.
+func ZvC03_S1_PushMany() {
+	kind := zvKind()
+	n := vrt.Choice(vrt.Pick(3, 4) + 1)
+	v, w := vrt.Int(), vrt.Int()
+	h, pre := zvHeapN(n, kind, v, w)
+	vrt.Assert(!vrt.Try(func() { h.Push(v, w) }), "C03/PushMany/no-panic")
+	post := h.data
+	q := vrt.Int()
+	vrt.Assert(vrt.CountInt(post, q) == vrt.CountInt(pre, q)+vrt.B2I(q == v)+vrt.B2I(q == w), "C03/PushMany/conserve")
+	vrt.Assert(zvIsHeap(post, h.comp), "C03/PushMany/heap-order")
 }
 
 func ZvC03_S1_Pop() {
@@ -68,6 +109,7 @@ func ZvC03_S1_Pop() {
 	var r int
 	vrt.Assert(!vrt.Try(func() { r = h.Pop() }), "C03/Pop/no-panic")
 	post := h.data
+	vrt.Assert(vrt.LocksHeld() == 0, "C03/Pop/lock-released")
 	if n == 0 {
 		vrt.Assert(vrt.And(r == 0, len(post) == 0), "C03/Pop/empty")
 		vrt.Cover("C03/Pop/empty")
@@ -82,6 +124,170 @@ func ZvC03_S1_Pop() {
 	vrt.Assert(vrt.CountInt(pre, r) >= 1, "C03/Pop/returns-element")
 	q := vrt.Int()
 	vrt.Assert(vrt.CountInt(post, q)+vrt.B2I(q == r) == vrt.CountInt(pre, q), "C03/Pop/conserve")
-	zvHeapInv(post, h.comp, "C03/Pop/heap-order")
+	vrt.Assert(zvIsHeap(post, h.comp), "C03/Pop/heap-order")
 	vrt.Cover("C03/Pop/nonempty")
 }
+
+func ZvC03_S1_Observers() {
+	kind := zvKind()
+	n := vrt.Choice(vrt.Pick(6, 9) + 1)
+	h, pre := zvHeapN(n, kind)
+	r := h.Peek()
+	if n == 0 {
+		vrt.Assert(r == 0, "C03/Peek/empty")
+	} else {
+		none := true
+		for i := range pre {
+			none = vrt.And(none, !h.comp(pre[i], r))
+		}
+		vrt.Assert(vrt.And(none, vrt.CountInt(pre, r) >= 1), "C03/Peek/extremal-element")
+	}
+	vrt.Assert(vrt.And(h.Size() == n, h.IsEmpty() == (n == 0)), "C03/Size")
+	vrt.Assert(vrt.SeqEqInt(h.GetValues(), pre), "C03/GetValues")
+	vrt.Assert(vrt.SeqEqInt(h.data, pre), "C03/observers-do-not-modify")
+	vrt.Assert(vrt.LocksHeld() == 0, "C03/observers/lock-released")
+}
+
+func ZvC03_S1_Clear() {
+	n := vrt.Choice(vrt.Pick(4, 6) + 1)
+	h, _ := zvHeapN(n, 0)
+	h.Clear()
+	vrt.Assert(vrt.And(h.Size() == 0, h.IsEmpty(), h.Peek() == 0, h.Pop() == 0), "C03/Clear/empty")
+	v := vrt.Int()
+	h.Push(v)
+	vrt.Assert(vrt.And(h.Size() == 1, h.Peek() == v), "C03/Clear/usable-after")
+}
+
+// Delete: the implementation re-sifts from the root with the pre-truncation length, which breaks the
+// heap order / indexes out of range for present values when n >= 2 (pinned by TestHeap_MaxHeap):
+// known finding C03-KF1/KF2, scoped to those two clauses. Everything else about Delete is enforced.
+func ZvC03_S1_Delete() {
+	kind := zvKind()
+	n := vrt.Choice(vrt.Pick(6, 8) + 1)
+	v := vrt.Int()
+	h, pre := zvHeapN(n, kind, v)
+	present := vrt.CountInt(pre, v) >= 1
+	kf := vrt.And(present, n >= 2)
+	var ok bool
+	var err error
+	panicked := vrt.Try(func() { ok, err = h.Delete(v) })
+	vrt.AssertUnless(kf, !panicked, "C03/Delete/no-panic")
+	post := h.data
+	q := vrt.Int()
+	if panicked {
+		// the removal itself happened before the faulty re-sift
+		vrt.Assert(vrt.CountInt(post, q)+vrt.B2I(q == v) == vrt.CountInt(pre, q), "C03/Delete/conserve-on-panic-path")
+		vrt.Cover("C03/Delete/known-panic")
+		return
+	}
+	vrt.Assert(ok == present, "C03/Delete/reports-presence")
+	vrt.Assert((err == nil) == present, "C03/Delete/error-iff-absent")
+	vrt.Assert(vrt.CountInt(post, q)+vrt.B2I(vrt.And(present, q == v)) == vrt.CountInt(pre, q), "C03/Delete/conserve")
+	vrt.Assert(len(post) == n-vrt.B2I(present), "C03/Delete/size")
+	vrt.AssertUnless(kf, zvIsHeap(post, h.comp), "C03/Delete/heap-order")
+	vrt.Assert(vrt.LocksHeld() == 0, "C03/Delete/lock-released")
+	vrt.Cover("C03/Delete/done")
+}
+
+func ZvC03_S1_Convert() {
+	kind := zvKind()
+	n := vrt.Choice(vrt.Pick(5, 7) + 1)
+	h, pre := zvHeapN(n, kind)
+	k2 := vrt.Choice(2)
+	c2 := zvComp(k2)
+	vrt.Assert(!vrt.Try(func() { h.Convert(c2) }), "C03/Convert/no-panic")
+	post := h.data
+	q := vrt.Int()
+	vrt.Assert(vrt.CountInt(post, q) == vrt.CountInt(pre, q), "C03/Convert/conserve")
+	vrt.Assert(len(post) == n, "C03/Convert/size")
+	vrt.Assert(zvIsHeap(post, c2), "C03/Convert/heap-order-under-new-comparator")
+	// the new comparator is in force for later operations
+	if n > 0 {
+		r := h.Peek()
+		none := true
+		for i := range pre {
+			none = vrt.And(none, !c2(pre[i], r))
+		}
+		vrt.Assert(none, "C03/Convert/peek-uses-new-comparator")
+	}
+}
+
+func ZvC03_S1_FromSlice() {
+	kind := zvKind()
+	n := vrt.Choice(vrt.Pick(5, 7) + 1)
+	a := zvInts(n)
+	if kind == 2 {
+		vrt.AssumeSWO(a...)
+	}
+	pre := append([]int(nil), a...)
+	comp := zvComp(kind)
+	var h *Heap[int]
+	vrt.Assert(!vrt.Try(func() { h = FromSlice(a, comp) }), "C03/FromSlice/no-panic")
+	q := vrt.Int()
+	vrt.Assert(vrt.CountInt(h.data, q) == vrt.CountInt(pre, q), "C03/FromSlice/conserve")
+	vrt.Assert(vrt.And(len(h.data) == n, h.Size() == n), "C03/FromSlice/size")
+	vrt.Assert(zvIsHeap(h.data, comp), "C03/FromSlice/heap-order")
+	vrt.Cover("C03/FromSlice/done")
+}
+
+func ZvC03_S1_Sort() {
+	kind := zvKind()
+	n := vrt.Choice(vrt.Pick(5, 6) + 1)
+	a := zvInts(n)
+	if kind == 2 {
+		vrt.AssumeSWO(a...)
+	}
+	pre := append([]int(nil), a...)
+	comp := zvComp(kind)
+	var res []int
+	vrt.Assert(!vrt.Try(func() { res = Sort(a, comp) }), "C03/Sort/no-panic")
+	q := vrt.Int()
+	vrt.Assert(vrt.And(len(res) == n, vrt.CountInt(res, q) == vrt.CountInt(pre, q)), "C03/Sort/permutation")
+	ok := true
+	for i := 0; i < len(res); i++ {
+		for j := i + 1; j < len(res); j++ {
+			ok = vrt.And(ok, !comp(res[i], res[j]))
+		}
+	}
+	vrt.Assert(ok, "C03/Sort/ordered-opposite-to-comparator")
+	vrt.Cover("C03/Sort/done")
+}
+
+func zvMergeLike(meld bool, id string) {
+	kind := zvKind()
+	m := vrt.Pick(2, 3)
+	n1 := vrt.Choice(m + 1)
+	n2 := vrt.Choice(m + 1)
+	a1, a2 := zvInts(n1), zvInts(n2)
+	comp := zvComp(kind)
+	if kind == 2 {
+		vrt.AssumeSWO(append(append([]int(nil), a1...), a2...)...)
+	}
+	zvAssumeHeap(a1, comp)
+	zvAssumeHeap(a2, comp)
+	h1, h2 := zvHeapOf(a1, comp), zvHeapOf(a2, comp)
+	p1, p2 := append([]int(nil), a1...), append([]int(nil), a2...)
+	var res *Heap[int]
+	vrt.Assert(!vrt.Try(func() {
+		if meld {
+			res = h1.Meld(h2)
+		} else {
+			res = h1.Merge(h2)
+		}
+	}), id+"/no-panic")
+	q := vrt.Int()
+	vrt.Assert(vrt.CountInt(res.data, q) == vrt.CountInt(p1, q)+vrt.CountInt(p2, q), id+"/multiset-sum")
+	vrt.Assert(res.Size() == n1+n2, id+"/size")
+	vrt.Assert(zvIsHeap(res.data, comp), id+"/heap-order")
+	if meld {
+		vrt.Assert(vrt.And(h1.Size() == 0, h2.Size() == 0, h1.IsEmpty(), h2.IsEmpty()), id+"/inputs-emptied")
+	} else {
+		vrt.Assert(vrt.And(vrt.SeqEqInt(h1.data, p1), vrt.SeqEqInt(h2.data, p2)), id+"/inputs-intact")
+		// the result does not share storage with the inputs: pushing to it leaves them intact
+		res.Push(vrt.Int())
+		vrt.Assert(vrt.And(vrt.SeqEqInt(h1.data, p1), vrt.SeqEqInt(h2.data, p2)), id+"/inputs-intact-after-push")
+	}
+}
+
+func ZvC03_S1_Merge() { zvMergeLike(false, "C03/Merge") }
+func ZvC03_S1_Meld()  { zvMergeLike(true, "C03/Meld") }
